@@ -1097,6 +1097,10 @@ class Interp:
             if m is None:
                 raise PyRaise("TypeError", f"indices must be integers, not {idx.cls.name}")
             idx = self.call_function(m, [idx], {})
+        if isinstance(o, dict) and isinstance(idx, tuple) and _symbolic_key(idx):
+            if _KeyBox(idx) in o:
+                return o[_KeyBox(idx)]
+            raise PyRaise("KeyError", "tuple key with symbolic entries")
         if isinstance(idx, slice) and any(is_sym(x) for x in (idx.start, idx.stop, idx.step)):
             s = [concrete_value(x) if is_sym(x) else x for x in (idx.start, idx.stop, idx.step)]
             if any(x is None and y is not None for x, y in zip(s, (idx.start, idx.stop, idx.step))):
@@ -1149,6 +1153,9 @@ class Interp:
             raise PyRaise("TypeError", str(e))
 
     def setitem(self, o, idx, v):
+        if isinstance(o, dict) and isinstance(idx, tuple) and _symbolic_key(idx):
+            o[_KeyBox(idx)] = v         # same-term policy for keys with symbolic entries (see `contains`)
+            return
         if isinstance(o, Obj):
             m, _ = o.cls.find("__setitem__")
             if m is None:
@@ -1454,7 +1461,7 @@ class Interp:
                 return self.call_function(m, [container, x], {})
             return Or(*[self.compare_op(ast.Eq(), y, x) for y in self.iterate(container)]) if True else False
         if isinstance(container, dict):
-            if is_sym(x):
+            if _symbolic_key(x):
                 # CPython hashes the key: here a symbolic key matches an entry stored under the SAME term only (as for the
                 # memoising decorators: two different terms that might be equal count as different keys, never a guessed hit)
                 return _KeyBox(x) in container
@@ -1804,15 +1811,42 @@ class Interp:
             self.frames.pop()
 
 
+def _key_parts(k):
+    """flatten a dict key (a symbolic value, or a tuple with symbolic entries) into comparable parts"""
+    if isinstance(k, tuple):
+        out = [("t", len(k))]
+        for x in k:
+            out += _key_parts(x)
+        return out
+    if is_sym(k):
+        return [("s", k.k, k.t)]
+    return [("c", k)]
+
+
+def _symbolic_key(k):
+    return is_sym(k) or (isinstance(k, tuple) and any(_symbolic_key(x) for x in k))
+
+
 class _KeyBox:
-    """hashable box around a symbolic dict key: equal iff the terms are structurally the same"""
-    __slots__ = ("sym",)
+    """hashable box around a dict key with symbolic parts: equal iff the parts are structurally the same (same terms)"""
+    __slots__ = ("sym", "parts")
 
     def __init__(self, sym):
         self.sym = sym
+        self.parts = _key_parts(sym)
 
     def __hash__(self):
-        return hash(self.sym)
+        return hash(tuple((p[0], p[1] if p[0] != "s" else hash(p[2])) if p[0] != "c" else ("c", hash(p[1])) for p in self.parts))
 
     def __eq__(self, other):
-        return isinstance(other, _KeyBox) and other.sym.k == self.sym.k and bool(other.sym.t.eq(self.sym.t))
+        if not isinstance(other, _KeyBox) or len(other.parts) != len(self.parts):
+            return False
+        for a, b in zip(self.parts, other.parts):
+            if a[0] != b[0]:
+                return False
+            if a[0] == "s":
+                if a[1] != b[1] or not bool(a[2].eq(b[2])):
+                    return False
+            elif a[1] != b[1]:
+                return False
+        return True
